@@ -338,6 +338,25 @@ fn main() {
     let max_calls = if i % 5 == 4 { 10 } else { 7 };
     jobs.push((gen_scenario(&mut rng, nthreads, compaction, max_calls), rng.fork()));
   }
+  // a fixed scenario (always explored): three committed segments, one handle that is opened, then
+  // deletes / re-adds documents committed before and commits, a compaction thread and a second
+  // writer - the handle's cache of live documents has to survive (or be refreshed after) a
+  // compaction that ran between its creation and its commit
+  jobs.push((
+    Scenario {
+      setup: vec![
+        Api::NewWriter(9), Api::Add(9, 901, 0, 901), Api::Add(9, 902, 1, 902), Api::Commit(9),
+        Api::Add(9, 903, 2, 903), Api::Commit(9), Api::Add(9, 904, 3, 904), Api::Commit(9),
+      ],
+      scripts: vec![
+        (1, vec![Api::NewWriter(1), Api::Del(1, 905, 0), Api::Add(1, 906, 2, 906), Api::Commit(1)]),
+        (2, vec![Api::NewWriter(2), Api::Del(2, 907, 1), Api::Commit(2)]),
+        (3, vec![Api::Compact]),
+      ],
+      compaction: true,
+    },
+    rng.fork(),
+  ));
   let njobs = jobs.len();
   let queue = Arc::new(std::sync::Mutex::new(jobs.into_iter().enumerate().collect::<Vec<_>>()));
   let results: Arc<std::sync::Mutex<BTreeMap<usize, ScenOut>>> = Arc::new(std::sync::Mutex::new(BTreeMap::new()));
